@@ -231,7 +231,7 @@ class TermMixin:
                     continue
                 if ki is None and self.key_all and c[0] == "cmp":
                     ki = ("cmp", c[1], repr(c[2]), repr(c[3]), truth)
-                if ki is not None and self._want_partition(fr, b, "cond", ki):
+                if ki is not None and (self._want_partition(fr, b, "cond", ki) or (ki[0] == "variant" and self._cond_key_adt(st, c))):
                     ns.key = ns.key + (ki,)
                 out.append((target, ns))
             return out
@@ -348,6 +348,18 @@ class TermMixin:
                 seen.add(x)
                 out.append((x, st.fork()))
         return out
+
+    def _cond_key_adt(self, st, c):
+        """Is the condition a variant test (`==` of a derived PartialEq, `matches!`) on an enum of a key ADT?"""
+        while c and c[0] == "not":
+            c = c[1]
+        if not self.key_adts or not c or c[0] != "isvar":
+            return False
+        try:
+            ev = self.M.read_path(st, c[1], c[2])
+        except Exception:
+            return False
+        return isinstance(ev, Enum) and self._key_adt(ev)
 
     def _key_adt(self, ev):
         if not self.key_adts or not isinstance(ev.ty, int):
